@@ -101,4 +101,12 @@ def cases(seed):
         ev = dict(n=18, times=times, disp=[0] * 18, labels=[b"F\0\0\0"] * 18)
         fp = dict(gid=3, name=b"FLOATS", type=4, dims=[8, 5], values=chunk)
         out.append(("floats_%04d" % (k // per), base_content(npts=10, nch=8, sub=5, nframes=1, frames=[(pts, an)], events=ev, extra_params=[fp]), {}, "40 float patterns in every float position"))
+    # every special pattern alone, in every component of every point, every analog sample, the float parameter and the event times
+    for k, pat in enumerate(gen.SPECIAL + [0x7fa00000, 0xff812345, 0x7f8fffff, 0xffbfffff]):
+        chunk = [pat] * 40
+        pts = [tuple(chunk[4 * i:4 * i + 4]) for i in range(10)]
+        an = [chunk[8 * s:8 * s + 8] for s in range(5)]
+        ev = dict(n=18, times=[pat] * 18, disp=[0] * 18, labels=[b"S\0\0\0"] * 18)
+        fp = dict(gid=3, name=b"FLOATS", type=4, dims=[8, 5], values=chunk)
+        out.append(("special_%02d_%08x" % (k, pat), base_content(npts=10, nch=8, sub=5, nframes=1, frames=[(pts, an)], events=ev, extra_params=[fp]), {}, "pattern %08x in every float position" % pat))
     return out
